@@ -18,7 +18,7 @@ func propC10() Property {
 		Explanation: "FieldMap keeps two views of one set (tagSort.tags drives write(); the tagLookup map drives length()/total()). " +
 			"R1 decides, for every function of the module that updates either view, that the other view is updated on the same paths (insert⇄append-if-absent, delete⇄removal, wholesale⇄wholesale). " +
 			"R2: a field copied from one lookup table into another keeps its full length. R3: the tags excluded from BodyLength/CheckSum accumulation are exactly {8,9,10}/{10} in writer and parser. " +
-			"R4: header/trailer ordering functions rank 8<9<35<rest and 10 last; builders cook then write Header, body, Trailer in that order. R5: cook binds BodyLength/CheckSum to the sums of the three sections. R6 (shared with C11): the header/trailer tag tables agree with the shipped specs, so what a builder writes into a section parses back into that section.",
+			"R4: header/trailer ordering functions rank 8<9<35<rest and 10 last; builders cook then write Header, body, Trailer in that order. R5: cook binds BodyLength/CheckSum to the sums of the three sections. R6 (shared with C11): the header/trailer tag tables agree with the shipped specs, so what a builder writes into a section parses back into that section. R7: a setter that reuses an existing lookup entry cut to [:1] stores the cut entry back under the same key (an entry may be a whole repeating group; only the table's entry decides what is written). R8: the checksum/length helpers fold byte-typed elements of the slice (not runes of a string conversion); a setter that obtained an entry re-initialises it on every path before returning (no skip on \"unchanged value\" — the stored value may alias the caller's buffer).",
 		NotDecided: "numeric correctness of the formatted BodyLength/CheckSum digits, ParseMessage round-trip equality, value escaping.",
 		Rules: []RuleDef{
 			{ID: "C10-R1", Desc: "tags ⇄ tagLookup paired update in every writer", Min: 6, Run: c10R1},
@@ -27,6 +27,8 @@ func propC10() Property {
 			{ID: "C10-R4", Desc: "section ordering tables and builder write order", Min: 6, Run: c10R4},
 			{ID: "C10-R5", Desc: "cook binds BodyLength and CheckSum to header+body+trailer", Min: 4, Run: c10R5},
 			{ID: "C10-R6", Desc: "header/trailer tag tables agree with the shipped specs (= C11-R1): what is built parses back into the same section", Min: 9, Run: c11R1},
+			{ID: "C10-R7", Desc: "re-initialising an existing entry truncates it in the table", Min: 1, Run: c10R7},
+			{ID: "C10-R8", Desc: "byte sums fold bytes; setters always re-initialise the entry", Min: 2, Run: c10R8},
 		},
 	}
 }
@@ -741,4 +743,71 @@ func contains(ss []string, s string) bool {
 		}
 	}
 	return false
+}
+
+// C10-R7: replacing a field replaces the whole entry. A lookup entry can hold several wire
+// fields (a repeating group is stored as one window). A setter that re-initialises element 0 of
+// an existing entry must also cut the entry down to that one element IN THE TABLE — truncating a
+// local copy of the slice header leaves the old group members behind the new value, and they are
+// written out after it. Every value obtained by slicing a lookup entry to [:1] and then handed
+// out for re-initialisation is stored back into the table under the same key.
+func c10R7(c *Ctx) {
+	p := c.P
+	fTagLookup := p.Field(modPath, "FieldMap", "tagLookup")
+	n := 0
+	for _, fn := range p.FuncsIn(modPath) {
+		ForEachInstr(fn, func(in ssa.Instruction) {
+			sl, ok := in.(*ssa.Slice)
+			if !ok || sl.High == nil {
+				return
+			}
+			if k, isC := constIntOf(sl.High); !isC || k != 1 {
+				return
+			}
+			xo := p.Origin(sl.X)
+			if xo.Kind != "lookup" || !isFieldOrg(xo.Base, fTagLookup) {
+				return
+			}
+			n++
+			// stored back under the same key
+			back := false
+			ForEachInstr(fn, func(in2 ssa.Instruction) {
+				if mu, ok := in2.(*ssa.MapUpdate); ok && isFieldOrg(p.Origin(mu.Map), fTagLookup) && stripConv(mu.Value) == ssa.Value(sl) && p.Origin(mu.Key).String() == xo.Y.String() && InstrDominates(sl, mu) {
+					back = true
+				}
+			})
+			// read-only uses (the slice is only read, e.g. indexed for a getter) need no write-back
+			escapes := false
+			var walk func(v ssa.Value, depth int)
+			walk = func(v ssa.Value, depth int) {
+				if depth > 3 {
+					return
+				}
+				for _, ref := range *v.Referrers() {
+					switch x := ref.(type) {
+					case *ssa.Return:
+						escapes = true
+					case ssa.CallInstruction:
+						escapes = true
+					case *ssa.Phi:
+						walk(x, depth+1)
+					case *ssa.ChangeType:
+						walk(x, depth+1)
+					case *ssa.Store:
+						escapes = true
+					}
+				}
+			}
+			walk(sl, 0)
+			if !escapes {
+				c.OK(FuncName(fn), p.InstrPos(sl), "entry[:1] only read")
+				return
+			}
+			c.Check(back, FuncName(fn), p.InstrPos(sl), "entry-truncated-in-table", "the truncated entry is stored back into the lookup table",
+				"an existing lookup entry is cut to its first element only in a local copy ("+xo.String()+"[:1]) that is then handed out for re-initialisation; the table keeps the full entry, so when a repeating group is replaced by a plain value the group's members stay behind it and are written after the new value")
+		})
+	}
+	if n == 0 {
+		c.Violation("", "-", "no-entry-reuse", "no setter reuses an existing lookup entry")
+	}
 }
